@@ -221,7 +221,36 @@ def check(run):
         cid = 'w%d' % k
         ssrc[cid] = ('parse_XML_buffer', text)
         j.case(cid, fork=True).model('xml', text).dump('errors').dump('inv').end()
+    # every declaration seed on top of declarations that make the rest of the document error-free: only then does the type checker (and the feature
+    # checker behind it) run over the declaration
+    for k, d in enumerate(crashgen.DECL[1:]):
+        cid = 'd%d' % k
+        text = crashgen.wrap_xml(crashgen.DECL[0] + '\n' + d)
+        ssrc[cid] = ('parse_XML_buffer', text)
+        j.case(cid, fork=True).model('xml', text).dump('errors').dump('inv').end()
+    # size and depth: every recursive structure of the language at 300 / 3000 elements under the sanitizers (their stack frames are several times larger)
+    for kind in crashgen.SCALE_KINDS:
+        for n in (300, 3000):
+            part, text = crashgen.scale(kind, n)
+            cid = 'z%s%d' % (kind, n)
+            ssrc[cid] = ('parse_XTA part %d (DocumentBuilder), %s x %d' % (part, kind, n), text[:300] + (' ... (%d characters)' % len(text) if len(text) > 300 else ''))
+            j.case(cid, fork=True).model('xml', crashgen.wrap_xml(crashgen.SCALE_DECL)).part(part, text).dump('errors').end()
     rr = vlib.run_jobs(j, flavour='asan')
+    # ... and at 30000 / 100000 (300000 for the operator chain) in the plain build; time is CPU time per case, limited by the harness
+    jb = vlib.Job()
+    big = {}
+    for kind in crashgen.SCALE_KINDS:
+        for n in ((30000, 100000, 300000) if kind == 'plus' else (30000, 100000)):
+            part, text = crashgen.scale(kind, n)
+            cid = 'Z%s%d' % (kind, n)
+            big[cid] = (kind, n, part, len(text))
+            jb.case(cid, fork=True).model('xml', crashgen.wrap_xml(crashgen.SCALE_DECL)).part(part, text).dump('errors').end()
+    rb = vlib.run_jobs(jb)
+    for cid, (kind, n, part, ln) in big.items():
+        c = rb[cid]
+        if c['status'] != 'ok':
+            run.fail('%s on a %s structure of %d elements (%d characters) through parse_XTA part %d' % (c['status'], kind, n, ln, part), dict(structure=kind, elements=n, part=part, status=c['status'], generator='crashgen.scale(%r, %d)' % (kind, n)),
+                     shape='deep-recursion:%s:%d' % (kind, n))
     entries = collections.Counter()
     outcomes = collections.Counter()
     for cid, (entry, text) in ssrc.items():
@@ -236,7 +265,7 @@ def check(run):
         nonstd = [l for l in flat if l.startswith('EXC') and 'what=' not in l]
         if nonstd:
             run.fail('an exception that is not a std::exception escaped %s' % entry, dict(entry=entry, input=text, line=nonstd[0]), shape='nonstd-exception')
-    run.cov.update(evaluations=nt + ns + len(sweep), reader_structural_faults=len(sweep), distinct_nontrivial=len(set(t for _, t in srcs.values())) + len(set(t for _, t in ssrc.values())), traces_validated_against_impl=nt,
+    run.cov.update(evaluations=nt + ns + len(sweep) + len(big) + 2 * len(crashgen.SCALE_KINDS) + len(crashgen.DECL) - 1, declaration_seeds_type_checked=len(crashgen.DECL) - 1, reader_structural_faults=len(sweep), scaled_structures=len(big) + 2 * len(crashgen.SCALE_KINDS), distinct_nontrivial=len(set(t for _, t in srcs.values())) + len(set(t for _, t in ssrc.values())), traces_validated_against_impl=nt,
                    callbacks_observed=ncalls, lr_replays=replayed, distinct_callbacks_observed=len(seen), callbacks_in_table=len(gen_lr.EFFECTS), automaton_states=info['states'], grammar_rules=info['rules'],
                    counting_symbols=info['stacks'][gen_lr.F]['counting_symbols'], entry_points=dict(entries), outcomes=dict(outcomes),
                    rule='(A) Coq: check_all on the LR(0) item automaton, rule actions and effect table regenerated from parser.y (bison --xml), for the expression, type and frame stacks. '
